@@ -9,6 +9,7 @@ MSG = S + "Message"
 def check(F, rep):
     rep.clause("Upsert: the no-op path (ack false) is taken exactly when the stored packet is more_recent_than the offered one (receiver = table read, argument = message), and touches no table; the update path inserts the offered packet and then acks true")
     rep.clause("more_recent_than compares timestamps self-vs-other in that orientation and breaks ties on the encoded packet")
+    rep.clause("served = stored: after an acknowledged update every path of ZoneStore::insert passes through the invalidation of the cached zone for that key, so DNS answers cannot keep coming from the zone of a packet that lost")
     rep.undecided("permutation invariance over publish histories (values)")
     hm = get_fn(F, rep, S + "Actor::handle_message")
     sw = enum_switches(F, hm, MSG)
@@ -83,3 +84,5 @@ def check(F, rep):
             what = "timestamp" if mdu.derives_from_call(op_base(t["args"][0]), SP + "::timestamp") else "encoded_packet"
             ok = requires(m, cb, ets) if what == "encoded_packet" else requires_failure(m, cb, ets)
             rep.ob("orientation", ok, site(m, cb), "%s comparison on the %s-timestamps branch" % (what, "equal" if what == "encoded_packet" else "different"), skey(F, m, "branch-" + what))
+    from .C38 import invalidation_unconditional
+    invalidation_unconditional(F, rep, "served")
